@@ -447,6 +447,7 @@ class Job:
         self.parts.append(head.encode() + b + b'\n')
         return self
     def model(self, kind, text): return self.data('MODEL', kind, text)
+    def other(self, kind, text): return self.data('OTHER', kind, text)
     def expr(self, text): return self.data('EXPR', '', text)
     def texpr(self, text): return self.data('TEXPR', '', text)
     def rt(self, text): return self.data('RT', '', text)
